@@ -5,7 +5,7 @@ import os
 
 PROP = {
     "bin": "c01",
-    "coq_targets": ["theories/Isa/C01Check", "theories/Isa/X86Proofs", "theories/Isa/X86Tie", "theories/Isa/X86SimMem", "theories/Isa/X86SimStack", "theories/Isa/X86SimCarry", "theories/Isa/X86SimMore", "theories/Isa/X86SimXchg", "theories/Isa/X86SimMul", "theories/Isa/X86SimShift", "theories/Isa/X86SimRot", "theories/Isa/X86SimCtl", "theories/Isa/X86SimBt"],
+    "coq_targets": ["theories/Isa/C01Check", "theories/Isa/X86Proofs", "theories/Isa/X86Tie", "theories/Isa/X86SimMem", "theories/Isa/X86SimStack", "theories/Isa/X86SimCarry", "theories/Isa/X86SimMore", "theories/Isa/X86SimXchg", "theories/Isa/X86SimMul", "theories/Isa/X86SimShift", "theories/Isa/X86SimRot", "theories/Isa/X86SimCtl", "theories/Isa/X86SimBt", "theories/Isa/X86SimCall"],
     "n": {"quick": int(os.environ.get("C01_N", "2400")), "thorough": 40000},
     "theorems": ["reg_get_set_correct", "reg_set_prefix_refuted", "of_add_correct", "of_sub_correct", "cf_sub_correct",
                  "cf_add_correct", "sf_correct", "set_zf_den", "set_sf_den", "set_cf_den", "set_of_den", "lift_mov_reg_reg_correct",
@@ -14,7 +14,7 @@ PROP = {
                  "ck_tie_is_syntactic_tie", "cc_condition_correct", "setcc_sim", "movx_sim", "addr_expr_correct", "lea_sim", "mem_load_spec", "mem_store_spec", "mov_load_sim", "mov_store_sim", "add_load_sim", "sub_load_sim",
                  "cmp_load_sim", "logic_load_sim", "movx_load_sim", "add_rmw_sim", "sub_rmw_sim", "tie_transfers_when", "logic_rmw_sim", "cmp_mem_sim", "incdec_rmw_sim", "push_sim", "pop_sim", "push_mem_sim", "pop_mem_sim",
                  "adc_sim", "adc_load_sim", "adc_rmw_sim", "sbb_sim", "sbb_load_sim", "sbb_rmw_sim",
-                 "test_sim", "test_mem_sim", "neg_sim", "neg_rmw_sim", "not_sim", "not_rmw_sim", "xchg_sim", "xchg_mem_sim", "xadd_sim", "xadd_mem_sim", "imul2_sim", "imul3_sim", "shift_sim", "shift1_sim", "rot_sim", "rot1_sim", "il_run_block_goto", "jmp_rel_sim", "jmp_ind_sim", "ret0_sim", "ret_imm_sim", "jcc_sim", "jcxz_sim", "loop_sim", "bt_sim"],
+                 "test_sim", "test_mem_sim", "neg_sim", "neg_rmw_sim", "not_sim", "not_rmw_sim", "xchg_sim", "xchg_mem_sim", "xadd_sim", "xadd_mem_sim", "imul2_sim", "imul3_sim", "shift_sim", "shift1_sim", "rot_sim", "rot1_sim", "il_run_block_goto", "jmp_rel_sim", "jmp_ind_sim", "ret0_sim", "ret_imm_sim", "jcc_sim", "jcxz_sim", "loop_sim", "bt_sim", "call_rel_sim", "call_ind_sim"],
     "rule": "instruction encodings enumerated from the opcode tables of harness/src/bin/c01.rs (mnemonic x operand size 8/16/32/64(/128) x "
             "register/memory/immediate forms x legacy high-byte registers x rep/repne x both modes, plus 1 076 PRIORITY forms -- 412 operand-aliasing forms (same-register pairs, sub-register-of-destination sources, base/index = destination), 212 address-size-prefixed forms (amd64 0x67 32-bit and x86 0x67 16-bit addressing for lea/mov/add and the bit-string forms bt/bts/btr/btc m,r), 425 boundary-immediate forms (every accepted instruction with an imm8 count/selector -- rol/ror/shl/shr/sar, shld/shrd, bt/bts/btr/btc, pslldq/psrldq, pshufd -- with {0,1,size-1,size,size+1,15,16,17,31,32,33,63,64,65,0x7f,0x80,0xff} per operand size (a reduced list in 32-bit mode), ret imm16 boundaries; since round 7 also jcxz/jecxz/jrcxz/loop* in every flavour of both modes, with (e/r)cx = 0 and = 1 in the first two states, and ret/ret imm16 in both modes) -- that are visited first, interleaved 1:1 with the rest, so the quick tier (2 400 encodings) contains all of them; cl counts are sampled from the same boundary list; about 6 300 forms); per memory operand the six states cycle through plain / wrapping (index with the top address bit set, base solved modulo 2^asz so that base+index*scale+disp wraps 2^16, 2^32 or 2^64 into a scratch page) / boundary-index scenarios, prefixed registers carry garbage above the address width, lea sums are placed at wrap-by-a-little, 2^asz-1 and 2^(asz-1), bit-string offsets of narrow-addressed bt* are a small amount plus a multiple of 2^(asz+3) (the element is mapped only if the whole address wraps at the address width), visited in a "
             "seed-dependent permutation, wrapping around with fresh operands/states when n exceeds the table; each encoding with 6 "
